@@ -1,5 +1,6 @@
 import Dawn.Proofs.LoaderDeadlock
 import Dawn.Proofs.LoaderProgress
+import Dawn.Model.LoaderReload
 /-!
 # C06 — module loading is once-only, terminating and cycle-safe
 
@@ -337,6 +338,27 @@ theorem C06_cycle_detector {P : Project} {s : State} (h : Reachable .fixed P s) 
       (s.pc u = .enter d ∨ (∃ cur, s.pc u = .walk d cur) ∨ ∃ r, s.pc u = .unset r) ∧
       ∃ s', next .fixed P s u = some s' :=
   cycle_detector h hc
+
+/-! ### more than one load on a `Project` -/
+
+/-- C06, a reload is a fresh load: whatever state the previous load of the `Project` ended in (finished, failed, with
+modules registered, loaded or failed) and whether or not the tree was edited in between, the loader state at the start
+of `Reload`'s load is the initial state of the (new) tree — empty registry, nothing loaded, executed or published,
+nobody asleep. Hence every theorem above, stated for `Reachable .fixed P'`, holds for every load of a session; in
+particular each module file is executed at most once *per load*, a stale error or a stale registration of an earlier
+load cannot be observed, and the targets and flags of a reload are those of a fresh `Load` of the tree as it is then
+(`C06_deterministic`). The abstraction rests on `proj.modules` being re-created before the goroutines start
+(`reloadResets`, tied to the source). -/
+theorem C06_reload_is_fresh_load (P' : Project) (old : State) :
+    reload P' old = init P' ∧ Reachable .fixed P' (reload P' old) ∧ "modules" ∈ reloadResets ∧
+    ∀ m, (reload P' old).registry m = false ∧ (reload P' old).loaded m = false ∧ (reload P' old).execs m = 0 ∧
+      (reload P' old).result m = .ok ∧ (reload P' old).loading m = none ∧ (reload P' old).asleep m = [] :=
+  ⟨rfl, .refl _, by decide, fun _ => ⟨rfl, rfl, rfl, rfl, rfl, rfl⟩⟩
+
+/-- … so the execution counts of a load never include those of an earlier load on the same `Project` -/
+theorem C06_once_per_load {P' : Project} (old : State) {s : State}
+    (h : Steps .fixed P' (reload P' old) s) (m : Mod) : s.execs m ≤ 1 :=
+  C06_once h m
 
 /-! ## Non-vacuity -/
 
